@@ -344,6 +344,7 @@ def exit_obligations(V, outs, entry, is_gen):
                 val = as_sv(val, c.ret) if c.ret != NONE else MNONE
             env = dict(entry.env)
             env['result'] = val
+            env['EFFECTS'] = st.ghost.get('effects') or SV(SeqT(STR), z3.Empty(sort_of(SeqT(STR))))
             if c.yield_key and is_gen:
                 ks = st.ghost.get('ykeys')
                 if ks is None:
@@ -369,6 +370,8 @@ def exit_obligations(V, outs, entry, is_gen):
                 continue
             exc = o.val
             env = dict(entry.env)
+            env['exc_class'] = SV(STR, z3.StringVal(exc.cls))
+            env['EFFECTS'] = st.ghost.get('effects') or SV(SeqT(STR), z3.Empty(sort_of(SeqT(STR))))
             V.exits.append(('raise:' + exc.cls, st, exc))
             for e in c.ensures_exc + c.ensures_all:
                 ps = post_state(st, env)
